@@ -196,7 +196,7 @@ pub fn check_full(c: &Case, ctx: &mut Ctx, id: &str, pow2: bool, sign_only: bool
     let mut head = 0usize;
     let mut big = 0.0f64;
     let mut mfi_big = 0.0f64;
-    let mut prev_tp = f64::NAN;
+    let mut prev_bar: Option<RawBar> = None;
     let sample_p = 300.0 / (c.len.max(1) as f64);
     let (mut checked, mut ill) = (0u64, 0u64);
     let mut win: Vec<RawBar> = Vec::with_capacity(cap);
@@ -213,10 +213,10 @@ pub fn check_full(c: &Case, ctx: &mut Ctx, id: &str, pow2: bool, sign_only: bool
         }
         let tpv = bar.tp();
         big = big.max(if bars_kind { tpv.abs() } else { bar.c.abs() });
-        if k == Kind::Mfi && t >= 2 && tpv != prev_tp {
+        if k == Kind::Mfi && t >= 2 && prev_bar.map(|pb| crate::refs::may_flow(&pb, &bar)).unwrap_or(true) {
             mfi_big = mfi_big.max((tpv * bar.v).abs());
         }
-        prev_tp = tpv;
+        prev_bar = Some(bar);
         // cheap invariant at every step: variance never negative or NaN
         if matches!(k, Kind::Sd | Kind::Bb) {
             let sdv = if k == Kind::Sd { out.x() } else { (out.v[1] - out.v[0]) / 2.0 };
